@@ -12,6 +12,7 @@ from harness.extract import database_ftp_tr as x_ftp
 from harness.extract import database_client_tr as x_cli
 from harness.extract import database_tick_tr as x_tick
 from harness.extract import database_conn_writers as x_cw
+from harness.extract import database_bot_tr as x_bot
 from harness.rigs import database as rig
 
 MANIFEST = {
@@ -65,8 +66,14 @@ MANIFEST = {
             "`_connections` at all - is regenerated from the whole source tree and compared (C17_gen_table_writers). (11) the rig's "
             "digest shows the live countdowns (FIXING(n), RESTARTING(n), also the FTP client's); the (halt, offset, duration) "
             "combinations of the fix race (70) and the (fixing_duration, restart_duration) pairs 0..3 x 0..3 are ENUMERATED on every "
-            "run. Tie: regenerated tables (Gen/Database.lean, C17_gen_*), the translated functions "
-            "(51 method instances, one obligation each), and differential rig R-db on real client/server/backup hosts behind a router.",
+            "run; the `_process_sql` grid (file state x service health x query, 72 cells, each over a live / forged / closed / missing id) "
+            "and the password grid (16 cells) as well. (12) the data-manipulation bot's stage machine (_logon, _perform_port_scan, "
+            "_establish_db_connection, _perform_data_manipulation, _application_loop) is translated (Gen/DatabaseBotTr.lean) and proved "
+            "equal, for every bot state and every outcome of its calls, to the closed form State.dmAttack is written in "
+            "(C17_tr_dm_advance, C17_tr_dm_loop; likewise the ransomware script's _application_loop / _perform_ransomware_encrypt / "
+            "_establish_db_connection and State.ransom, C17_tr_rs_loop; the step from that closed form to State.dmAttack itself is by the shared helper "
+            "functions dmAdvance / dmRepeatRule and the rig, not a theorem). Tie: regenerated tables (Gen/Database.lean, C17_gen_*), the translated functions "
+            "(59 method instances, one obligation each), and differential rig R-db on real client/server/backup hosts behind a router.",
     "note": "C17-specific: the network between hosts is abstracted to per-direction reachability flags (validated by the rig "
             "with real ACL rules, NIC state and node power); the FTP transfers are modelled as far as the database uses them "
             "(`ftpSendFile` / `ftpRequestFile`: since round 4 proved equal to the translated FTP code; what stays hand-written is "
@@ -80,7 +87,7 @@ MANIFEST = {
     "design_ref": "5/C17",
 }
 MODULES = ["PrimaiteModel.Props.C17", "PrimaiteModel.Props.C17Gen", "PrimaiteModel.Props.C17Run", "PrimaiteModel.Props.C17Recv", "PrimaiteModel.Props.C17Ftp",
-           "PrimaiteModel.Props.C17Client", "PrimaiteModel.Props.C17Tick", "PrimaiteModel.Lemmas.DatabaseReach"]
+           "PrimaiteModel.Props.C17Client", "PrimaiteModel.Props.C17Tick", "PrimaiteModel.Props.C17Bot", "PrimaiteModel.Lemmas.DatabaseReach"]
 EXE = "drv_c17"
 
 
@@ -156,6 +163,13 @@ def run(ctx: Ctx):
             ctx.oblige(f"translate-client:{fname}", "extractor", False, why)
         ctx.oblige("translate-client:all-10-functions", "extractor", not x_cli.FAILED, "; ".join(sorted(x_cli.FAILED)))
         ctx.extract(x_cw.GEN_NAME, x_cw.emit)
+        ctx.extract(x_bot.GEN_NAME, x_bot.emit)
+        for mname in x_bot.ORDER:   # the data-manipulation bot's stage machine (round 7)
+            ctx.oblige(f"translate-bot:{mname}", "extractor", mname not in x_bot.FAILED and "class" not in x_bot.FAILED,
+                       x_bot.FAILED.get(mname, x_bot.FAILED.get("class", "")))
+        for mname in x_bot.RS_ORDER:   # the ransomware script
+            ctx.oblige(f"translate-bot:rs:{mname}", "extractor", "rs:" + mname not in x_bot.FAILED and "rs:class" not in x_bot.FAILED,
+                       x_bot.FAILED.get("rs:" + mname, x_bot.FAILED.get("rs:class", "")))
         ctx.extract(x_tick.GEN_NAME, x_tick.emit)
         for mname, lname, _ in x_tick.ROOTS:   # tick path + life-cycle methods (round 7): one obligation per root method
             ctx.oblige(f"translate-tick:{mname}", "extractor", mname not in x_tick.FAILED, x_tick.FAILED.get(mname, ""))
